@@ -115,6 +115,10 @@ def observe(tag, H, g, is_sc, rng, plt):
             rows = [r_ for r_, z in zip(rows, sz) if np.isfinite(z)]
         return rows
 
+    def rendered_count(coll):
+        off = coll.get_offsets()
+        return [k_ for k_ in range(len(off)) if not np.ma.is_masked(off[k_])]
+
     def scene(node_coll, dyad_coll, edge_coll):
         markers = rendered(node_coll) if node_coll is not None else [-5]
         lines = [[node_at(s[0]), node_at(s[-1])] for s in dyad_coll.get_segments()]
@@ -130,7 +134,10 @@ def observe(tag, H, g, is_sc, rng, plt):
               # values that are not finite for some nodes (a statistic that is undefined there); the same value everywhere
               dict(node_fc={n: (float("nan") if k % 2 else 0.5) for k, n in enumerate(H.nodes)}),
               dict(node_size={n: 7 for n in H.nodes}, node_lw={n: 2 for n in H.nodes}),
-              dict(node_fc=H.nodes.clustering_coefficient, node_size=[6.0] * H.num_nodes)]
+              dict(node_fc=H.nodes.clustering_coefficient, node_size=[6.0] * H.num_nodes),
+              # the documented per-ID form with colour names / RGB tuples
+              dict(node_fc={n: ("red" if k % 2 else "tab:blue") for k, n in enumerate(H.nodes)}),
+              dict(node_fc={n: (0.1, 0.2, 0.3) for n in H.nodes}, node_ec={n: "black" for n in H.nodes})]
     mos = [None, 1, 2, 3]
     for si, style in enumerate(styles):
         mo = mos[si % len(mos)]
@@ -170,6 +177,27 @@ def observe(tag, H, g, is_sc, rng, plt):
                 return base(f"{tag}.draw_hyperedges.{si}", "draw", "draw_hyperedges", st, mo=-1 if mo is None else mo,
                             markers=[-5], lines=lines, polys=polys)
             guarded(f"{tag}.draw_hyperedges.{si}", "draw", "draw_hyperedges", dh)
+
+    # the default layout (no pos given), again after an edit that keeps the numbers of nodes and edges
+    if not is_sc:
+        def default_twice():
+            K = H.copy()
+            xgi.draw(K)
+            plt.close("all")
+            iso = [n for n in K.nodes if not K._node[n]]
+            es = [e for e in K.edges if len(K._edge[e]) >= 2]
+            if iso and es:
+                K.remove_node(iso[0])
+                K.add_node_to_edge(es[0], "__new__")
+            elif es:
+                old_ = next(iter(K._edge[es[0]]))
+                K.remove_node_from_edge(es[0], old_, remove_empty=False)
+                K.add_node_to_edge(es[0], old_)
+            ax, (nc, dy, ed) = xgi.draw(K)
+            ok_ = len(rendered_count(nc)) == K.num_nodes
+            return base(f"{tag}.draw.default_pos", "layout", "draw(pos=None) after a count-preserving edit", st,
+                        keys=st["nodes"], ok=[bool(ok_)] * len(st["nodes"]))
+        guarded(f"{tag}.draw.default_pos", "layout", "draw(pos=None) after a count-preserving edit", default_twice)
 
     def dn():
         ax, nc = xgi.draw_nodes(H, pos=pos, node_fc=H.nodes.degree)
